@@ -5,8 +5,11 @@ import (
 	"bytes"
 	"encoding/json"
 	"fmt"
+	"io"
 	"reflect"
+	"strings"
 	"testing"
+	"testing/iotest"
 	"unicode/utf8"
 
 	"github.com/elliotchance/gedcom/v39"
@@ -97,6 +100,46 @@ func roundTrip(doc *gedcom.Document) *harness.Failure {
 			f.Msg += fmt.Sprintf(" (text %q)", trunc(text))
 			return f
 		}
+	}
+	// the same text through the other entry points of the decoder: a Decoder on a reader, and on
+	// a reader that hands over one byte at a time (how the bytes arrive is not part of the text)
+	for _, route := range []struct {
+		name string
+		r    io.Reader
+	}{{"Decoder", strings.NewReader(text)}, {"Decoder/one-byte-reader", iotest.OneByteReader(strings.NewReader(text))}} {
+		var doc3 *gedcom.Document
+		if f := safely("decode", func() { doc3, err = gedcom.NewDecoder(route.r).Decode() }); f != nil {
+			f.Msg += fmt.Sprintf(" (%s, text %q)", route.name, trunc(text))
+			return f
+		}
+		if err != nil {
+			return harness.Failf("decode-rejects-encoder-output", "%s rejects the encoder's own output: %v (text %q)", route.name, err, trunc(text))
+		}
+		if doc3.HasBOM != doc.HasBOM {
+			return harness.Failf("bom-differs", "%s: HasBOM %v became %v", route.name, doc.HasBOM, doc3.HasBOM)
+		}
+		c := doc3.Nodes()
+		if len(a) != len(c) {
+			return harness.Failf("roots-differ", "%s: %d root nodes became %d (text %q)", route.name, len(a), len(c), trunc(text))
+		}
+		for i := range a {
+			if f := compareNodes(fmt.Sprintf("/%d", i), a[i], c[i]); f != nil {
+				f.Msg += fmt.Sprintf(" (%s, text %q)", route.name, trunc(text))
+				return f
+			}
+		}
+	}
+	// encoding is repeatable, decoding the text did not touch the source, and the decoded
+	// document encodes to the same text
+	var again, second string
+	if f := safely("encode", func() { again, second = doc.String(), doc2.String() }); f != nil {
+		return f
+	}
+	if again != text {
+		return harness.Failf("encoding-not-repeatable", "Document.String gives %q and then %q", trunc(text), trunc(again))
+	}
+	if second != text {
+		return harness.Failf("second-generation-differs", "the decoded document encodes as %q, the original as %q", trunc(second), trunc(text))
 	}
 	return nil
 }
@@ -296,7 +339,8 @@ func TestCheckExhaustive(t *testing.T) {
 func init() {
 	harness.Assume("legal parts as the property defines them: tags of ASCII letters, digits and underscore; values without CR/LF and without surrounding whitespace (strings.TrimSpace); pointers without '@' and line breaks",
 		"role nodes (HUSB/WIFE/CHIL) only inside or after a family in document order, as the quantifier says",
-		"the built document is compared with its own decode, never with the blueprint, so constructor quirks (SEX dropping children) cannot alarm")
+		"the built document is compared with its own decode, never with the blueprint, so constructor quirks (SEX dropping children) cannot alarm",
+		"every case is decoded three ways (NewDocumentFromString, a Decoder on a reader, a Decoder on a reader that hands over one byte at a time); encoding twice must give the same text and the decoded document must encode to that text again")
 	replay := func(raw json.RawMessage) *harness.Failure {
 		var c rtCase
 		if err := json.Unmarshal(raw, &c); err != nil {
